@@ -29,3 +29,124 @@ pub(crate) fn term_lean(id: u32, parents: HpoGroup, all_parents: HpoGroup, child
         replacement: None,
     }
 }
+
+// ---------------------------------------------------------------------------------------------
+// C07: term record encoder = documented v2/v3 layout
+// ---------------------------------------------------------------------------------------------
+use crate::annotations::AnnotationId as _;
+use crate::ontology::verif_kani::stub_random_state;
+
+fn be(b: &[u8], at: usize) -> u32 {
+    ((b[at] as u32) << 24) | ((b[at + 1] as u32) << 16) | ((b[at + 2] as u32) << 8) | b[at + 3] as u32
+}
+
+fn encode_term<const NAME: usize, const L: usize>() {
+    assert!(L == 14 + NAME);
+    let nb: [u8; NAME] = kani::any();
+    let Ok(name) = core::str::from_utf8(&nb) else {
+        return;
+    };
+    let id: u32 = kani::any();
+    let obsolete: bool = kani::any();
+    let rep: u32 = kani::any();
+    let has_rep: bool = kani::any();
+    let mut t = HpoTermInternal::new(name.to_string(), HpoTermId::from_u32(id));
+    *t.obsolete_mut() = obsolete;
+    if has_rep {
+        *t.replacement_mut() = Some(HpoTermId::from_u32(rep));
+    }
+    let out = t.as_bytes();
+    assert!(out.len() == L, "record length");
+    assert!(be(&out, 0) == L as u32, "total length field");
+    assert!(be(&out, 4) == id, "term id field");
+    assert!(out[8] == NAME as u8, "name length field");
+    let mut i = 0;
+    while i < NAME {
+        assert!(out[9 + i] == nb[i], "name bytes");
+        i += 1;
+    }
+    assert!(out[9 + NAME] == obsolete as u8, "flags byte: bit 0 = obsolete");
+    assert!(be(&out, 10 + NAME) == if has_rep { rep } else { 0 }, "replacement id or 0");
+    kani::cover!(obsolete && has_rep && rep != 0, "obsolete with replacement");
+    kani::cover!(NAME > 1 && nb[0] >= 0x80, "opt: multi-byte character in the name");
+    core::mem::forget(out);
+    core::mem::forget(t);
+}
+
+#[kani::proof]
+#[kani::stub(std::hash::RandomState::new, stub_random_state)]
+#[kani::unwind(8)]
+fn c07_term_encode_n0() {
+    encode_term::<0, 14>();
+}
+#[kani::proof]
+#[kani::stub(std::hash::RandomState::new, stub_random_state)]
+#[kani::unwind(8)]
+fn c07_term_encode_n1() {
+    encode_term::<1, 15>();
+}
+#[kani::proof]
+#[kani::stub(std::hash::RandomState::new, stub_random_state)]
+#[kani::unwind(8)]
+fn c07_term_encode_n3() {
+    encode_term::<3, 17>();
+}
+
+/// parent section record: n_parents u32 BE | term id u32 BE | parent ids u32 BE ascending
+#[kani::proof]
+#[kani::stub(std::hash::RandomState::new, stub_random_state)]
+#[kani::unwind(8)]
+fn c07_term_parents_encode() {
+    let id: u32 = kani::any();
+    let p: [u32; 2] = kani::any();
+    let n: usize = kani::any();
+    kani::assume(n <= 2);
+    kani::assume(p[0] != p[1]);
+    let mut parents = HpoGroup::default();
+    if n >= 1 {
+        parents.insert(p[0]);
+    }
+    if n >= 2 {
+        parents.insert(p[1]);
+    }
+    let t = term_lean(id, parents, HpoGroup::default(), HpoGroup::default());
+    let out = t.parents_as_byte();
+    assert!(out.len() == 8 + 4 * n);
+    assert!(be(&out, 0) == n as u32, "number of parents");
+    assert!(be(&out, 4) == id, "term id");
+    if n == 1 {
+        assert!(be(&out, 8) == p[0]);
+    }
+    if n == 2 {
+        let (lo, hi) = if p[0] < p[1] { (p[0], p[1]) } else { (p[1], p[0]) };
+        assert!(be(&out, 8) == lo && be(&out, 12) == hi, "parent ids ascending, big-endian");
+    }
+    kani::cover!(n == 2 && p[0] > p[1], "two parents inserted in descending order");
+    kani::cover!(n == 0, "root term without parents");
+    core::mem::forget(out);
+    core::mem::forget(t);
+}
+
+/// over-long term names: the emitted 255-byte name field must be valid UTF-8 (see gene.rs)
+#[kani::proof]
+#[kani::stub(std::hash::RandomState::new, stub_random_state)]
+#[kani::unwind(262)]
+fn c07_term_name_cap_utf8() {
+    let mut raw = [b'a'; 258];
+    let c: [u8; 3] = kani::any();
+    raw[253] = c[0];
+    raw[254] = c[1];
+    raw[255] = c[2];
+    let Ok(name) = core::str::from_utf8(&raw) else {
+        return;
+    };
+    let t = HpoTermInternal::new(name.to_string(), HpoTermId::from_u32(1));
+    let out = t.as_bytes();
+    assert!(out[8] == 255, "name length capped at 255");
+    assert!(out.len() == 14 + 255);
+    let field_ok = core::str::from_utf8(&out[9..9 + 255]).is_ok();
+    assert!(field_ok, "emitted name field is valid UTF-8");
+    kani::cover!(c[0] >= 0xC0, "multi-byte character at the cut");
+    core::mem::forget(out);
+    core::mem::forget(t);
+}
